@@ -54,7 +54,7 @@ def relayout(stmts, rng, kinds):
             for _ in range(rng.choice([1, 1, 2, 3])):
                 lines.append(rng.choice(["", "   "]))
         if "comment" in kinds and rng.random() < 0.2:
-            lines.append(rng.choice(["! an ordinary comment", "  ! end subroutine fake", "!integer :: not_a_decl", "! module x"]))
+            lines.append(rng.choice(["! an ordinary comment", "  ! end subroutine fake", "!integer :: not_a_decl", "! module x", "! a & b", " ! trailing &"]))
         t = text
         if "case" in kinds:
             mode = rng.choice(["upper", "lower", "mixed", "same"])
@@ -77,7 +77,10 @@ def relayout(stmts, rng, kinds):
             cut = [k for k in range(len(s)) if s[k] == " " and s[:k].strip() and s[k:].strip()]
             k = rng.choice(cut)
             lead = rng.choice(["", "&", "  & "])
-            lines.append(s[:k] + " &")
+            tail = ""
+            if "comment" in kinds and rng.random() < 0.5:
+                tail = rng.choice([" ! rows & columns", " ! note", "! R&D &", " !& x"])
+            lines.append(s[:k] + " &" + tail)
             if "comment" in kinds and rng.random() < 0.2:
                 lines.append("  ! a comment inside a continued statement")
             lines.append("   " + lead + s[k:])
@@ -85,7 +88,7 @@ def relayout(stmts, rng, kinds):
             if "trailing" in kinds and rng.random() < 0.4:
                 t = t + " " * rng.choice([1, 3, 8])
             if "comment" in kinds and rng.random() < 0.25 and kind != "plain":
-                t = t + rng.choice([" ! trailing note", "  !x", " ! end"])
+                t = t + rng.choice([" ! trailing note", "  !x", " ! end", " ! in & out", " ! 'quoted' \"text\""])
             lines.append(t)
         i += 1
     term = rng.choice(["\n", "\r\n", "\r"]) if "terminator" in kinds else "\n"
